@@ -153,7 +153,9 @@ fn bands(thorough: bool) -> Vec<Band> {
             full(2, 2, vec![Layout::Same, Layout::ExportIface, Layout::Split(1)]),
             Band {
                 prims: vec![Fill::U32],
-                var_v: 3,
+                var_v: 2,
+                flags_v: 2,
+                tup_v: 1,
                 ..full(3, 1, vec![Layout::Same, Layout::Split(2)])
             },
         ]
@@ -1305,7 +1307,7 @@ fn explore(b: &Band, layout: Layout, defs: &mut Vec<Def>, acc: &mut Acc) {
             acc.outcomes.insert(ev.outcome);
             if ev.genuine_merge {
                 if acc.outcomes_nt.insert(ev.outcome) && acc.samples.len() < 2 {
-                    acc.samples.push(json!({"world": world_code(defs, layout, &uses), "types": ev.n_types, "live": ev.n_live, "oracle_classes": ev.n_classes}));
+                    acc.samples.push(json!({"world": world_code(defs, layout, &uses), "wit": one_line(&wit), "types": ev.n_types, "live": ev.n_live, "oracle_classes": ev.n_classes}));
                 }
             }
             for (key, what) in ev.violations {
@@ -1491,7 +1493,7 @@ fn main() {
         "worlds_with_error_use": {"result_literal": el, "result_named_alias": en, "result_through_alias_or_use": ea},
         "distinct_outcomes": outcomes.len(),
         "distinct_nontrivial": outcomes_nt.len(),
-        "rule": "distinct coarse outcome signatures (multiset of oracle classes of size>=2 as kind x members, set of post-merge fact bit-vectors of named types, near-equal pair count capped at 3) among worlds whose oracle partition has a class with >=2 non-alias definitions (a genuine structural merge, not mere alias transparency)",
+        "rule": "cases = all worlds of the bands' grammar (every tuple of definitions x every layout x every set of uses), enumerated completely, each rendered to WIT and parsed by wit-parser; counted as non-trivial: distinct coarse outcome signatures (multiset of oracle classes of size>=2 as kind x members, set of post-merge fact bit-vectors of named types, near-equal pair count capped at 3) among worlds whose oracle partition has a class with >=2 non-alias definitions (a genuine structural merge, not mere alias transparency)",
         "oracle": "canonical structural signature string per type (aliases/use transparent, field/case/flag names in order, resources by TypeId) => partition of the live types; content facts by reachability (list or string / tuple / resource or handle / borrow / own); usage facts by reachability from import params (borrowed), export params + all results (owned), error type of the (alias-chased) result of a function (error)",
         "compared": "(1) get_representative_type partition vs oracle partition on all live types; (2) every TypeInfo bit after analyze(); (3) after collect_equal_types: equal types carry identical bits = union over the class",
         "violation_keys": viol.keys().collect::<Vec<_>>(),
